@@ -125,6 +125,12 @@ impl<R: Read + Send> Read for SequentialReader<R> {
     fn read(&mut self, buf: &mut [u8]) -> IoResult<usize> {
         let mut reader = match self.inner {
             SequentialReaderInner::MyTurn(ref mut reader) => return reader.read(buf),
+            #[cfg(tiny_http_verif)]
+            SequentialReaderInner::Waiting(ref mut recv) => {
+                simrt::probe("seqreader.waits_for_predecessor.read");
+                recv.recv().unwrap()
+            }
+            #[cfg_attr(tiny_http_verif, allow(unreachable_patterns))]
             SequentialReaderInner::Waiting(ref mut recv) => recv.recv().unwrap(),
             SequentialReaderInner::Empty => unreachable!(),
         };
@@ -137,6 +143,10 @@ impl<R: Read + Send> Read for SequentialReader<R> {
 
 impl<W: Write + Send> Write for SequentialWriter<W> {
     fn write(&mut self, buf: &[u8]) -> IoResult<usize> {
+        #[cfg(tiny_http_verif)]
+        if self.trigger.is_some() {
+            simrt::probe("seqwriter.waits_for_turn.write");
+        }
         if let Some(v) = self.trigger.as_mut() {
             v.recv().unwrap()
         }
@@ -183,6 +193,10 @@ where
         // a writer that was never written to must still wait for its own turn:
         // releasing the successor early would let a later response overtake
         // (or interleave with) an earlier one
+        #[cfg(tiny_http_verif)]
+        if self.trigger.is_some() {
+            simrt::probe("seqwriter.waits_for_turn.drop_unwritten");
+        }
         if let Some(v) = self.trigger.take() {
             v.recv().ok();
         }
